@@ -127,13 +127,16 @@ def main():
         if rep is None:
             # worker died before writing its report: attribute to the journalled case
             jp = os.path.join(outdir, 'journal_%s.txt' % i)
-            case = open(jp).read().strip() if os.path.exists(jp) else '?'
+            case = open(jp, errors='replace').read().replace('\x00', '').strip() if os.path.exists(jp) else '?'
             tail = ''.join(open(logp).readlines()[-60:])
             kindsig = 'worker-crash'
             m = re.search(r'^(panic: .*|fatal error: .*)$', open(logp).read(), re.M)
             reason = m.group(1) if m else 'exit %d' % rc
             if 'test timed out' in tail or 'panic: test timed out' in reason:
                 kindsig = 'worker-timeout'
+            if 'WATCHDOG: no progress' in open(logp).read():
+                kindsig = 'worker-hang'
+                reason = 'the case made no progress for the watchdog limit (a goroutine of the code under test is stuck outside virtual time, e.g. deadlocked on a mutex)'
             keep = os.path.join(VERIF, 'replays', '%s-crash-shard%s.log' % (prop, i))
             shutil.copy(logp, keep)
             violations.append({'sig': '%s:%s' % (kindsig, case.split('\n')[0][:200]), 'msg': reason, 'replay': {'log': keep, 'case': case}})
